@@ -124,3 +124,14 @@ def atoms_at(points):
         v = eval_term(d, pt)
         return {"Lt": v < 0, "LtE": v <= 0, "Gt": v > 0, "GtE": v >= 0, "Eq": v == 0, "NotEq": v != 0}[type(op).__name__]
     return atoms
+
+
+def provably_le(a, b):
+    """a <= b from the structure of a: same term, interval separation, or a == min(..., b, ...)"""
+    a, b = T(a), T(b)
+    if same(a, b) or a.hi <= b.lo:
+        return True
+    for key, name in W.atoms.items():
+        if a.same(Term.sym(name)) and key[0] == "min" and any(k == b.key() for k in key[1:]):
+            return True
+    return False
